@@ -144,6 +144,10 @@ pub fn text_rewrites(src: &str) -> Vec<Rewrite> {
                     let mut p = texts.clone();
                     p[i] = format!("{}@note ", texts[i]);
                     push_kind("R3-annotation", p, &mut out, texts[i].chars().all(|c| c == ' ' || c == '\t'));
+                    // an annotation whose name holds digits and an underscore
+                    let mut p = texts.clone();
+                    p[i] = format!("{}@n2_x9 ", texts[i]);
+                    push_kind("R3-annotation", p, &mut out, texts[i].chars().all(|c| c == ' ' || c == '\t'));
                 }
             }
             TokenType::Whitespace if texts[i] == "\n" => {
